@@ -8,6 +8,7 @@ import (
 	"unsafe"
 
 	ringz "verifharness/gen/syncringshim"
+	stime "verifharness/internal/sched/time"
 	"verifharness/internal/sched"
 	"verifharness/internal/sched/drive"
 )
@@ -165,9 +166,22 @@ func (t *ringTarget) Call(c string) string {
 			return "bad-call"
 		}
 		return fmt.Sprintf("ret push %v", t.r.Push(v))
+	case c == "O": // PopWait with a positive duration: ticks/expiry are scheduler choices
+		v, ok := t.r.PopWait(timedWait)
+		return fmt.Sprintf("ret popw %d %v", v, ok)
+	case strings.HasPrefix(c, "U"): // PushWait with a positive duration
+		v, err := strconv.Atoi(c[1:])
+		if err != nil {
+			return "bad-call"
+		}
+		return fmt.Sprintf("ret pushw %v", t.r.PushWait(v, timedWait))
 	}
 	return "bad-call"
 }
+
+// the positive duration of the scheduled waiting forms; its value is immaterial: under
+// the scheduler the deadline is reached when the schedule says `expire <tid>`
+const timedWait = 15 * stime.Millisecond
 
 func (t *ringTarget) Sample() string { return fmt.Sprintf("len=%d", t.r.Len()) }
 
@@ -258,10 +272,10 @@ func parseHeader(line string) (h header, ok bool) {
 	}
 	for _, p := range h.progs {
 		for _, c := range p {
-			if c == "o" || c == "l" || c == "e" || c == "f" {
+			if c == "o" || c == "l" || c == "e" || c == "f" || c == "O" {
 				continue
 			}
-			if !strings.HasPrefix(c, "u") {
+			if !strings.HasPrefix(c, "u") && !strings.HasPrefix(c, "U") {
 				return h, false
 			}
 			if _, err := strconv.Atoi(c[1:]); err != nil {
@@ -379,6 +393,15 @@ func (t *ringTarget) ExtraLine(toks []string) (string, bool) {
 		}
 		t.shift(uint32(k))
 		return "warped " + t.Sample(), true
+	}
+	if len(toks) == 2 && toks[0] == "expire" {
+		// from now on every deadline test of thread <tid>'s timed waits succeeds
+		tid, err := strconv.Atoi(toks[1])
+		if err != nil || tid < 0 || tid > 1<<16 {
+			return "bad-op", true
+		}
+		sched.SetExpired(tid)
+		return "expired", true
 	}
 	return "", false
 }
